@@ -41,3 +41,37 @@ package cron
 //@ func (*Cron).run
 //@   ensures[C16.oneshot_not_rescheduled] old(job.Expression) == nil ==> !rescheduled
 //@   ensures[C16.recurring_rescheduled]   old(job.Expression) != nil ==> rescheduled
+
+// ---- C15: scheduled rules ------------------------------------------------------------------------
+//@ ghost lastSched string
+//@ ghost lastPersistent bool
+//@ ghost cronScheduledId string
+//@ ghost cronRemId string
+//@ ghost hooksInstalled bool gate
+//@ func getSchedule
+//@   ensures[C15.getschedule_string] result1 == nil && has(fact, "rule") && is(fact["rule"], map[string]interface{}) && has(fact["rule"].(map[string]interface{}), "schedule") ==> is(fact["rule"].(map[string]interface{})["schedule"], string) && result0 == fact["rule"].(map[string]interface{})["schedule"].(string)
+//@   ensures[C15.getschedule_none]   !has(fact, "rule") ==> result0 == "" && result1 == nil
+//@   ensures[C15.getschedule_unscheduled] has(fact, "rule") && is(fact["rule"], map[string]interface{}) && !has(fact["rule"].(map[string]interface{}), "schedule") ==> result0 == "" && result1 == nil
+//@   ensures[C15.getschedule_error_empty] result1 != nil ==> result0 == ""
+//@   ghost-ensures lastSched == result0
+//@   also-modifies lastSched
+//@ iface Cronner.Persistent
+//@   ghost-ensures lastPersistent == result
+//@   also-modifies lastPersistent
+//@   pure-effects
+//@ iface Cronner.ScheduleEvent
+//@   ghost-ensures result == nil ==> cronScheduledId == se.Id
+//@   also-modifies cronScheduledId
+//@ iface Cronner.Rem
+//@   ghost-ensures result1 == nil ==> cronRemId == id
+//@   also-modifies cronRemId
+
+// The add hook registers exactly the rules that carry a schedule (not while loading into a persistent cron);
+// the remove hook unregisters them.
+//@ func AddHooks$1
+//@   ensures[C15.addhook_registers] result == nil && lastSched != "" && !(lastPersistent && loading) ==> cronScheduledId == id
+//@ func AddHooks$2
+//@   ensures[C15.remhook_unregisters] result == nil && lastSched != "" ==> cronRemId == id
+//@ func AddHooks
+//@   ghost-ensures result == nil ==> hooksInstalled
+//@   also-modifies hooksInstalled
